@@ -341,8 +341,9 @@ theorem conforms_inst (resp : Bool) (f : Fields) (a : Area) (s : TcpSig) (hwf : 
   have hpa : parseArea f.tcp.opts = some a := by
     rw [hc.opts.1]; exact Huginn.Props.C03.parseArea_complete a hc.opts.2.1
   have hpad := pad_ok s a heol hc.layout
-  obtain ⟨hlay, hmss, hws, hq⟩ := walked_eq f a hpa hpad
+  obtain ⟨hlay, hmss, hws, _⟩ := walked_eq f a hpa hpad
   have hamb := hc.opts.2.2
+  have hq := walked_quirks_unamb f a hpa hpad (fun h => hamb (Or.inr (Or.inl h))) (fun h => hamb (Or.inr (Or.inr h)))
   have hl1 : ¬ 1 < (mssValues a).length := fun h => hamb (Or.inl h)
   have hl2 : ¬ 1 < (wsValues a).length := fun h => hamb (Or.inr (Or.inl h))
   rw [getLast?_eq_head? _ hl1] at hmss
